@@ -380,7 +380,9 @@ META = {
     "technique": "TLA+ terminal model (token interpreter) and layout reference model-checked against each other; the real library's output stream is trace-validated token by token, the screen at every input wait compared with the expected frame (text cells, cursor cell, no remnants)",
     "text": ("Seeded editing sessions (buffers around multiples of the width, wide / combining / tab / newline content, prompts, cursor "
              "positions, longer and shorter preceding frames, emacs and vi) run on the real library on a pty; every output token is replayed "
-             "into Terminal.tla by TermTrace and at every wait the grid must show exactly Layout.tla's frame with the cursor on the right cell."),
+             "into Terminal.tla by TermTrace and at every wait the grid must show exactly Layout.tla's frame with the cursor on the right cell. "
+             "Families: hints below the input, what a completer says (usage, messages, lists of wide candidates), a right-side prompt (allowed "
+             "flush right on the last row of the frame only)."),
     "note": "Trusted: TLC, harness tokeniser (cross-checked: every cursor report the on-line emulator answered must equal the TLA+ terminal's cursor), uniseg widths. Seeded sampling.",
     "design_ref": "DESIGN.md §5 C04",
 }
